@@ -501,7 +501,42 @@ pub fn run_case(c: &Sexp) -> Sexp {
                     Err(_) => err(),
                 }
             });
-            Sexp::tag("obs", vec![schema_to_sexp(&schema), dec, valid, reenc, redec, deser, ignored])
+            // a target that wants only every second field of a top-level record (a struct lacking the others): the
+            // kept fields must be what a full capture holds at those positions, and the same bytes must be consumed
+            let partial = if matches!(schema, apache_avro::Schema::Record(_)) {
+                guarded(|| {
+                    use crate::universal::{Alternate, Captured};
+                    let r = match GenericDatumReader::builder(&schema).build() {
+                        Ok(r) => r,
+                        Err(_) => return Sexp::tag("reader-err", vec![]),
+                    };
+                    let mut s0 = &input[..];
+                    let full = match r.read_deser::<Captured>(&mut s0) {
+                        Ok(Captured::Map(m)) => m,
+                        Ok(_) => return Sexp::tag("not-a-map", vec![]),
+                        Err(_) => return Sexp::tag("full-err", vec![]),
+                    };
+                    fn judge(full: &[(Captured, Captured)], got: &[(Captured, Option<Captured>)], rest: &[u8], rest0: &[u8]) -> Sexp {
+                        let same = full.len() == got.len()
+                            && full.iter().zip(got).all(|((k, v), (k2, v2))| k == k2 && v2.as_ref().is_none_or(|x| x == v));
+                        ok(vec![Sexp::num(same as u64), Sexp::num((rest == rest0) as u64)])
+                    }
+                    let mut s1 = &input[..];
+                    let a0 = match r.read_deser::<Alternate<0>>(&mut s1) {
+                        Ok(a) => judge(&full, &a.0, s1, s0),
+                        Err(_) => err(),
+                    };
+                    let mut s2 = &input[..];
+                    let a1 = match r.read_deser::<Alternate<1>>(&mut s2) {
+                        Ok(a) => judge(&full, &a.0, s2, s0),
+                        Err(_) => err(),
+                    };
+                    Sexp::tag("partial", vec![a0, a1])
+                })
+            } else {
+                Sexp::tag("skipped", vec![])
+            };
+            Sexp::tag("obs", vec![schema_to_sexp(&schema), dec, valid, reenc, redec, deser, ignored, partial])
         }
         // (vw #schema-json VALUE) -> (obs SCHEMA VALUE valid01 RESOLVE DATUM DEC SO CONTAINER)
         //   validation, resolution, and the three validating write paths on one value
